@@ -11,7 +11,7 @@ from pathlib import Path
 
 from ..common import Report, parse_args
 
-REPLAYS = Path(__file__).resolve().parents[2] / "replays"
+from ..common import REPLAYS  # noqa: E402
 
 MTI = {"metadata_type": "add_method_type_info", "type_string": "xAOD::Jet", "method_name": "pt", "return_type": "int"}
 ENUM = {"metadata_type": "define_enum", "namespace": "xAOD.Jet", "name": "Color", "values": ["Red", "Blue"]}
@@ -42,6 +42,13 @@ for name, md in (("mti", MTI), ("enum", ENUM), ("coll", COLL), ("newcoll", NEWCO
 OPS["ok_plain"] = (q([], GOOD_BODY), True)
 OPS["fail_plain"] = (q([], BAD_BODY), False)
 OPS["fail_badmd"] = (q([MTI, {"metadata_type": "no_such"}], GOOD_BODY), False)
+# failures raised late, in write_cpp_files' dataset lookup, after all metadata has been processed
+OPS["fail_twods"] = (q([MTI, JOB, INJECT, DOCKER], "lambda e: e.Jets('A').Select(lambda j: j.eta() + EventDataset('d2').Count())"), False)
+OPS["fail_nods"] = (q([MTI, JOB, INJECT, DOCKER], GOOD_BODY).replace("EventDataset('ds')", "some_name"), False)
+# a query that is only transformed (apply_ast_transformations) and never written: its declarations must not reach the next one
+APPLY_ONLY = {"apply_inject": q([INJECT, JOB], GOOD_BODY), "apply_mti": q([MTI, ENUM, DOCKER], GOOD_BODY), "apply_plain": q([], GOOD_BODY)}
+for _k, _src in APPLY_ONLY.items():
+    OPS[_k] = (_src, True)
 
 PROBES = {
     "typed_method": q([], "lambda e: e.Jets('A').Select(lambda j: j.pt())"),                      # column type / container type / includes
@@ -52,6 +59,13 @@ PROBES = {
     "own_declarations": q([dict(MTI, return_type="float"), dict(INJECT, body_includes=["mine.h"], private_members=[], link_libraries=[])],
                           "lambda e: e.Jets('A').Select(lambda j: j.pt())"),
 }
+# probes used only after LONG histories (10..12 repetitions of one plain query): generated names must stay distinct whatever the
+# counters of earlier queries were
+WIDE_PROBES = {
+    "wide_tuple": q([], "lambda e: (" + ", ".join(f"e.Jets('A').Count() + {i}" for i in range(13)) + ")"),
+    "wide_dict": q([], "lambda e: {" + ", ".join(f"'col{i}': e.Jets('A').Count() * {i + 1}" for i in range(12)) + "}"),
+}
+PROBES_ALL = dict(PROBES, **WIDE_PROBES)
 
 
 @dataclass
@@ -88,7 +102,7 @@ def run_case(case):
     shared = None
     trace = []
 
-    def one(src, mode, expect=None):
+    def one(src, mode, expect=None, apply_only=False):
         nonlocal shared
         if mode == "shared":
             if shared is None:
@@ -100,6 +114,8 @@ def run_case(case):
         d = Path(tempfile.mkdtemp(prefix="c07"))
         try:
             a = exe.apply_ast_transformations(parse_query(src))
+            if apply_only:
+                return ("ok", {}, [], None)
             info = exe.write_cpp_files(a, d)
             files = {p.name: p.read_text() for p in d.iterdir() if p.is_file()}
             docker = [x.image for x in exe.extended_md("docker")]
@@ -110,7 +126,7 @@ def run_case(case):
             shutil.rmtree(d, ignore_errors=True)
     for opname, mode in history:
         src, expect_ok = OPS[opname]
-        r = one(src, mode)
+        r = one(src, mode, apply_only=opname in APPLY_ONLY)
         trace.append((opname, mode, r[0]))
         if (r[0] == "ok") != expect_ok:
             return {"error": f"operation {opname} expected {'success' if expect_ok else 'failure'} but {r[0]}: {r[1:3] if r[0] != 'ok' else ''}", "trace": trace}
@@ -125,7 +141,7 @@ def run_case(case):
                        "extended_md_found": {k: len(v) for k, v in shared._found_extended_md.items() if v},
                        "method_names": sorted(shared._method_names)})
         return {"state": st, "trace": trace}
-    r = one(PROBES[probe], probe_mode)
+    r = one(PROBES_ALL[probe], probe_mode)
     if r[0] == "ok":
         return {"outcome": "ok", "files": canonical(r[1]), "raw": r[1], "docker": r[2], "tree": r[3], "trace": trace}
     return {"outcome": "raised", "exc": r[1], "msg": r[2], "trace": trace}
@@ -207,11 +223,19 @@ def main():
                 if not h and pm == "shared":
                     continue
                 cases.append((h, p, pm, False))
+    long_hist = [[("ok_plain", m)] * k for k in (9, 10, 11, 12) for m in modes] + [[("ok_mti", "new")] + [("ok_plain", "shared")] * 10]
+    for p in WIDE_PROBES:
+        cases.append(([], p, "new", False))
+        for h in long_hist:
+            for pm in modes:
+                cases.append((h, p, pm, False))
     state_cases = [(h, None, None, True) for h in [[]] + hist1]
     t0 = time.time()
     results = fresh_map(cases + state_cases, a.jobs)
     res = dict(zip([json.dumps(c[:3]) for c in cases], results[:len(cases)]))
-    base = {p: res[json.dumps(([], p, "new"))] for p in PROBES}
+    base = {p: res[json.dumps(([], p, "new"))] for p in PROBES_ALL}
+    from ..common import load_known_findings
+    kfs = [f for f in load_known_findings("C07") if f.get("status") == "known" and f.get("history_ops")]
     nontrivial = 0
     samples = []
     benign = []
@@ -238,7 +262,7 @@ def main():
                 diff_files = [k for k in b["files"] if r["files"].get(k) != b["files"][k]]
                 eq, why = (None, "")
                 if set(diff_files) <= {"query.cxx", "query.h"}:
-                    eq, why = semantic_equal(PROBES[p], r["raw"], b["raw"])
+                    eq, why = semantic_equal(PROBES_ALL[p], r["raw"], b["raw"])
                 if eq is True:
                     benign.append((tag, diff_files, why))
                 else:
@@ -248,10 +272,14 @@ def main():
                              if ln[:1] in "+-" and not ln.startswith(("+++", "---"))][:6]
                     problem = f"package differs in {diff_files}: {delta} {why}"
         if problem:
+            kf = next((f for f in kfs if all(o in f["history_ops"] for o, _ in h) and p in f["probes"] and re.search(f["problem_regex"], problem)), None)
+            if kf is not None:
+                rep.known(kf["id"], kf["what"][:200] + f" | observed: {tag[:160]}")
+                continue
             key = (p, problem[:80])
             d = REPLAYS / "C07" / re.sub(r"\W+", "_", f"{h}_{p}_{pm}")[:120]
             d.mkdir(parents=True, exist_ok=True)
-            (d / "finding.json").write_text(json.dumps({"history": h, "probe": p, "probe_query": PROBES[p], "executor": pm, "problem": problem,
+            (d / "finding.json").write_text(json.dumps({"history": h, "probe": p, "probe_query": PROBES_ALL[p], "executor": pm, "problem": problem,
                                                         "ops": {o: OPS[o][0] for o, _ in h}}, indent=1))
             if key not in seen_viol or len(seen_viol) < 40:
                 seen_viol.add(key)
@@ -282,7 +310,7 @@ def main():
         "evaluations": len(cases), "distinct_nontrivial": nontrivial,
         "rule": "one case = (history of <=2 operations, probe query, executor reuse mode), each run in its own freshly forked process and compared with the probe in a fresh process",
         "samples": samples or [{"note": "none"}],
-        "bounds": {"history_length": 2, "operations": len(ops), "executor_modes": list(modes), "probes": list(PROBES), "N": 2},
+        "bounds": {"history_length": 2, "long_histories": "9..12 repetitions of one plain query, wide (12-13 column) probes", "operations": len(ops), "executor_modes": list(modes), "probes": list(PROBES), "N": 2},
         "benign_textual_differences": benign[:10],
         "registries_differing_from_fresh_state_after_one_operation": leaks[:30],
         "explanation": "packages are compared after canonical renaming of generated names; a textual difference in the C++ files is decided by engine A (z3: rows/faults/schema "
